@@ -18,9 +18,9 @@ use std::collections::{BTreeMap, BTreeSet};
 pub const META: PropMeta = PropMeta {
     id: "C17",
     level: "exploration",
-    rule: "cases = well-formed, coincidence-free registries (simulator programs whose every instantiation is coincidence-free and whose families are untainted; Polkadot sub-registries restricted likewise), each with (a) 6 (quick) / 10 (thorough) permutations of its entries with consistent renumbering (reversal, 'second instantiation first', random) and (b) 3 / 5 reachability-closed sub-registries produced by PortableRegistry::retain from random root sets. Oracles (metamorphic): (a) generate_types_mod on the permuted registry returns the same outcome and, when Ok, a token-identical module; ensure_unique_type_paths partitions the entries into the same rename groups (compared as a partition through the id map); (b) for every path emitted from the sub-registry the item is token-identical to the item emitted from the full registry; type_description of every retained id is the same string; example-value validity (returns a value that round-trips / returns an error) of every retained id is the same for 2 seeds. non-trivial = registry with >= 1 generic family of >= 2 instantiations; distinct by registry hash.",
+    rule: "cases = well-formed, coincidence-free registries (simulator programs whose every instantiation is coincidence-free and whose families are untainted; Polkadot sub-registries restricted likewise; and merges of two versions of one program - same paths, one local edit - whose members are coincidence-free), each with (a) 6 (quick) / 10 (thorough) permutations of its entries with consistent renumbering (reversal, 'second instantiation first', random) and (b) 3 / 5 reachability-closed sub-registries produced by PortableRegistry::retain from random root sets. Oracles (metamorphic): (a) generate_types_mod on the permuted registry returns the same outcome and, when Ok, a token-identical module; ensure_unique_type_paths partitions the entries into the same rename groups (compared as a partition through the id map); (b) for every path emitted from the sub-registry the item is token-identical to the item emitted from the full registry; type_description of every retained id is the same string; example-value validity (returns a value that round-trips / returns an error) of every retained id is the same for 2 seeds. non-trivial = registry with >= 1 generic family of >= 2 instantiations; distinct by registry hash.",
     assumptions: &["coincidence-freedom is decided from the source program (simulator) or conservatively on the registry (Polkadot)"],
-    required_counters: &["permutations_compared", "subregistries_compared", "items_compared", "descriptions_compared", "dedup_partitions_compared", "families_with_renames"],
+    required_counters: &["permutations_compared", "subregistries_compared", "items_compared", "descriptions_compared", "dedup_partitions_compared", "families_with_renames", "two_version_registries"],
     floor: (200, 4000),
     shards: (16, 16),
 };
@@ -226,6 +226,39 @@ pub fn run(ctx: &mut Ctx) {
         if ctx.res.samples.len() < 2 && nt {
             ctx.sample(json!({"source": src.lines().skip(3).take(14).collect::<Vec<_>>(), "entries": out.registry.types.len()}));
         }
+    }
+    // "two versions of one crate": same paths, different shapes - where the de-duplication clause
+    // (same shape groups under every permutation, same outcome of generation) has something to say
+    let n_tv = ctx.tier.pick(1200u64, 24_000u64);
+    for case in 0..n_tv {
+        if !ctx.mine(case) {
+            continue;
+        }
+        let mut rng = ctx.rng("c17-two-versions", case);
+        let mut cfg = GenCfg::default();
+        cfg.max_defs = 4;
+        cfg.max_insts = 2;
+        let p1 = ProgGen::new(&mut rng, cfg).gen_program();
+        let mut p2 = p1.clone();
+        let what = crate::families::edit_program(&mut rng, &mut p2);
+        let (p1, p2) = if case % 2 == 1 { (p2, p1) } else { (p1, p2) };
+        let (o1, o2) = (sim::simulate(&p1), sim::simulate(&p2));
+        let merged = crate::families::merge(&o1.registry, &o2.registry);
+        let off = o1.registry.types.len() as u32;
+        let mut noncf: BTreeSet<u32> = sim::cf_source(&p1, &o1).iter().filter(|(_, x)| x.is_some()).map(|(i, _)| *i).collect();
+        noncf.extend(sim::cf_source(&p2, &o2).iter().filter(|(_, x)| x.is_some()).map(|(i, _)| *i + off));
+        if !noncf.is_empty() || !reg::tainted_by_coincidence(&merged, &noncf).is_empty() {
+            ctx.count("skipped_not_cf", 1);
+            continue;
+        }
+        let mut d = SDesc::default();
+        d.root = pick_root(&mut rng, &merged);
+        ctx.begin_case(&format!("c17 two-versions {case}: {what}"));
+        let regj = reg::to_json(&merged);
+        let dj = serde_json::to_value(&d).unwrap();
+        let nt = judge(ctx, &merged, &d, &mut rng, &|extra| json!({"kind": "c17", "registry": regj, "sdesc": dj, "source": what, "transform": extra}));
+        ctx.case(reg::fingerprint(&merged), nt);
+        ctx.count("two_version_registries", 1);
     }
     let polka = reg::load_polkadot();
     let n_p = ctx.tier.pick(16u64, 200u64);
